@@ -1,5 +1,5 @@
 (* C39 — proofs of the lemmas that Props/C39_props.v closes with `exact`. *)
-From PV Require Import Bytes C39.
+From PV Require Import Bytes C39 C39_gen.
 From Coq Require Import ZArith List Bool Lia.
 Import ListNotations.
 Open Scope Z_scope.
@@ -570,4 +570,44 @@ Proof.
   pose proof (roundtrip fs1 bs [] W1 E1) as R1.
   pose proof (roundtrip fs2 bs [] W2 E2) as R2.
   rewrite K in R1. rewrite R1 in R2. injection R2 as ->. reflexivity.
+Qed.
+
+(* ------------------------------------------------------------------ *)
+(* the literals gen/c39.py read out of message.py / util.py / common.py *)
+(* are the ones the model above is written with                        *)
+(* ------------------------------------------------------------------ *)
+
+(* the model's own constants, stated through the model's functions where one exists *)
+Lemma source_constants :
+  c39_big_int = big_int /\
+  (* get_bytes pads short reads only below 1 << 20 *)
+  (forall buf n, snd (get_bytes buf 0 n) = length (fst (get_bytes buf 0 n)) \/ n < 2 ^ c39_pad_shift) /\
+  2 ^ c39_pad_shift = 2 ^ 20 /\
+  (* struct formats and the byte counts read for them *)
+  c39_fmt_u32_bytes = 4 /\ c39_n_u32 = c39_fmt_u32_bytes /\
+  c39_fmt_u64_bytes = 8 /\ c39_n_u64 = c39_fmt_u64_bytes /\
+  c39_n_byte = 1 /\ c39_n_byte + c39_n_adaptive_rest = c39_fmt_u32_bytes /\
+  (* name-list separator *)
+  join_comma [[1]; [2]] = [1; c39_sep; 2] /\ split_comma [1; c39_sep; 2] = [[1]; [2]] /\
+  (* deflate_long: 32-bit limbs masked with 0xffffffff, FF / sign-bit tests *)
+  c39_mask32 = 2 ^ c39_def_shift - 1 /\ c39_def_shift = 32 /\ c39_def_ff = 255 /\ c39_def_sign = 128 /\
+  deflate_long (c39_def_sign - 1) true = [c39_def_sign - 1] /\
+  deflate_long c39_def_sign true = [c39_zero_byte; c39_def_sign] /\
+  deflate_long (- c39_def_sign) true = [c39_def_sign] /\
+  deflate_long (- c39_def_sign - 1) true = [c39_max_byte; c39_def_sign - 1] /\
+  (* inflate_long: words of 4 bytes shifted by 32, sign bit 0x80, 8 bits per byte *)
+  c39_inf_word = 4 /\ c39_inf_shift = c39_inf_bits * c39_inf_word /\ c39_inf_bits = 8 /\ c39_inf_sign = 128 /\
+  inflate_long [c39_inf_sign - 1] false = c39_inf_sign - 1 /\
+  inflate_long [c39_inf_sign] false = - c39_inf_sign /\
+  (* the three byte constants of paramiko.common *)
+  c39_zero_byte = 0 /\ c39_one_byte = 1 /\ c39_max_byte = 255 /\
+  encode_field (FBool true) = Ok [c39_one_byte] /\ encode_field (FBool false) = Ok [c39_zero_byte] /\
+  encode_field (FAdaptive c39_big_int) = Ok (c39_max_byte :: be_encode 4 5 ++ [0; 255; 0; 0; 0]) /\
+  encode_field (FAdaptive (c39_big_int - 1)) = Ok (be_encode 4 (c39_big_int - 1)).
+Proof.
+  repeat match goal with |- _ /\ _ => split end; try (vm_compute; reflexivity).
+  intros buf n. unfold get_bytes. cbn [skipn].
+  destruct ((Z.of_nat (length (firstn (Z.to_nat (Z.min n (Z.of_nat (length buf)))) buf)) <? n) && (n <? 2 ^ 20)) eqn:E.
+  - right. apply andb_true_iff in E. destruct E as [_ E]. apply Z.ltb_lt in E. exact E.
+  - left. cbn [fst snd]. lia.
 Qed.
